@@ -183,11 +183,11 @@ theorem set_columns (c : CreateTable) (cols : List DefCol) :
     dictSet (ctFields c) "columns" (.tuple (cols.map DefCol.toVal)) = ctFields { c with columns := cols } := by
   simp [ctFields, dictSet]
 
-/-- the typed `change_type` is the `Val`-level one (with the tuple repair) on trees -/
+/-- the typed `change_type` is the `Val`-level one on trees -/
 theorem changeType_typed (hm : List (String × String)) (rp : Bool) (c : CreateTable) :
-    changeTypeRepaired c.toVal hm rp = (changeTypeT hm rp c).map CreateTable.toVal := by
+    changeType c.toVal hm rp = (changeTypeT hm rp c).map CreateTable.toVal := by
   rw [createTable_toVal]
-  unfold changeTypeRepaired changeTypeWith changeTypeT
+  unfold changeType changeTypeWith changeTypeT
   simp only [beq_self_eq_true, ↓reduceIte, get_columns, changeColumns_typed]
   cases changeColsT hm rp c.columns with
   | error e => rfl
